@@ -48,3 +48,11 @@ def intx(case):
                 bad.append(dict(f=f.__name__, x=np.asarray(x).tolist(), x_dtype=str(np.asarray(x).dtype), with_int_x=a.tolist(), with_float_x=b.tolist()))
     return dict(reproduced=bool(bad), failing=bad[:3],
                 statement='%s(f, method=%r)(integer-typed x) == the same with x as floats' % (case['klass'], case['method']))
+
+
+@reg('common.defaults')
+def defaults(case):
+    from ndvc.concrete import default_argument_mismatches
+    bad = default_argument_mismatches(case.get('keys'))
+    return dict(reproduced=bool(bad), failing=[dict(entry_point=k, argument=a, default_found=g, documented=w) for k, a, g, w in bad][:5],
+                statement='default arguments of the public entry points == the documented defaults')
